@@ -230,14 +230,33 @@ func freshDir(name string) string {
 // ---- a scenario as the job runner sees it ----------------------------------------------------------------------
 
 type schedScn struct {
-	Name    string
-	Shards  int
-	Bound   int
-	Sleep   bool
-	Body    func(x *sched.Exec)
-	Prepare func(t *testing.T) (oracle func(x *sched.Exec), info map[string]any, err error)
+	Name   string
+	Shards int
+	Bound  int
+	Sleep  bool
+	Body   func(x *sched.Exec)
+	// Prepare runs the sequential references and returns the oracle, facts for the evidence, and a function that
+	// lists what the oracle saw but does not assert (answers whose status/code no sequential run produced).
+	Prepare func(t *testing.T) (oracle func(x *sched.Exec), info map[string]any, notes func() []string, err error)
 	VioKey  func(msg string) string
 	Compact func(log []string) string // outcome class for the distinct count
+}
+
+type noteSet map[string]bool
+
+func (n noteSet) add(s string) {
+	if len(n) < 8 {
+		n[s] = true
+	}
+}
+
+func (n noteSet) list() []string {
+	out := make([]string, 0, len(n))
+	for k := range n {
+		out = append(out, k)
+	}
+	sort.Strings(out)
+	return out
 }
 
 // refRun executes a sequential body once (plus the explorer's determinism double) and returns its log.
@@ -317,10 +336,24 @@ func (s pubScenario) body(order []int) func(x *sched.Exec) {
 			})
 		}
 		x.Run()
+		if cut(x, a) {
+			return
+		}
 		x.Finish()
 		x.Logf("final=%s", queueRows(a))
 		a.Shutdown()
 	}
+}
+
+// cut: the execution was abandoned by the explorer (redundant under the sleep-set reduction, deadlock, divergence);
+// threads may still be parked inside critical sections, so nothing more is asked of the application.
+func cut(x *sched.Exec, a *app.VerifApp) bool {
+	if !x.SleepBlocked && !x.Deadlock && x.Err == nil {
+		return false
+	}
+	x.Finish()
+	a.Shutdown()
+	return true
 }
 
 func permutations(n int) [][]int {
@@ -374,7 +407,7 @@ func (s pubScenario) scn(bound int, sleep bool, shards int) schedScn {
 		VioKey: func(msg string) string {
 			kind := "not-serializable"
 			switch {
-			case strings.Contains(msg, "same id"):
+			case strings.Contains(msg, "the same id"):
 				kind = "same-id-accepted-twice"
 			case strings.Contains(msg, "above max_depth"):
 				kind = "above-max_depth"
@@ -383,14 +416,15 @@ func (s pubScenario) scn(bound int, sleep bool, shards int) schedScn {
 			}
 			return fmt.Sprintf("concurrent-publish:%s:%s:%s", kind, s.Backend, policyName)
 		},
-		Prepare: func(t *testing.T) (func(x *sched.Exec), map[string]any, error) {
+		Prepare: func(t *testing.T) (func(x *sched.Exec), map[string]any, func() []string, error) {
+			notes := noteSet{}
 			allowed := map[string]string{}
 			strict := map[string]bool{}
 			var seqText []string
 			for _, perm := range permutations(len(s.Reqs)) {
 				m, err := refRun(t, s.body(perm))
 				if err != nil {
-					return nil, nil, fmt.Errorf("%s: sequential order %v: %w", s.Name, perm, err)
+					return nil, nil, nil, fmt.Errorf("%s: sequential order %v: %w", s.Name, perm, err)
 				}
 				var names []string
 				for _, i := range perm {
@@ -443,12 +477,25 @@ func (s pubScenario) scn(bound int, sleep bool, shards int) schedScn {
 					}
 				}
 				if _, ok := allowed[s.outcomeClass(m)]; !ok {
-					sched.Failf("answers and final queue of the overlapping publishes are not those of any sequential order of the same requests:\n    observed %s (answers %s)\n    %s",
-						s.outcomeClass(m), s.answersOnly(m), strings.Join(seqText, "\n    "))
+					what := "answers and final queue of the overlapping publishes are not those of any sequential order of the same requests"
+					for i, p := range s.Reqs {
+						for _, q := range s.Reqs[i+1:] {
+							for _, id := range p.IDs {
+								if ans[p.Name].accepted() && ans[q.Name].accepted() && contains(q.IDs, id) {
+									what = fmt.Sprintf("overlapping publishes %s and %s were both answered %d although both carry the same id %q, and no sequential order of the requests explains it (an eviction in between would)",
+										p.Name, q.Name, ans[q.Name].Status, id)
+								}
+							}
+						}
+					}
+					sched.Failf("%s:\n    observed %s (answers %s)\n    %s", what, s.outcomeClass(m), s.answersOnly(m), strings.Join(seqText, "\n    "))
+				}
+				if !strict[s.answersOnly(m)] {
+					notes.add(s.answersOnly(m))
 				}
 			}
 			info := map[string]any{"sequential_outcomes": len(allowed)}
-			return oracle, info, nil
+			return oracle, info, notes.list, nil
 		},
 	}
 }
@@ -463,11 +510,13 @@ func pubScenarios(thorough bool) []schedScn {
 		{"unlimited", 0, 0, false},
 		{"reject-room2", 4, 2, false},
 		{"drop_oldest-room2", 4, 2, true},
+		{"reject-depth=batch", 2, 0, false},
+		{"drop_oldest-depth=batch", 2, 0, true},
 	}
 	type shape struct {
-		name  string
-		ids   [][]string
-		quick bool
+		name        string
+		ids         [][]string
+		quick       bool
 		sqliteQuick bool
 	}
 	shapes := []shape{
@@ -504,12 +553,13 @@ func pubScenarios(thorough bool) []schedScn {
 						s.Reqs = append(s.Reqs, q)
 					}
 					s.Name = fmt.Sprintf("publish||publish:%s:%s:%s:%s", backend, w.name, sh.name, paths)
-					bound, sleep, shards := pick(thorough, 2, 3), false, 1
-					if backend == "memory" && len(sh.ids) == 2 {
-						bound, sleep = -1, true
-					}
-					if backend == "sqlite" || len(sh.ids) == 3 {
-						shards = pick(thorough, 4, 8)
+					// memory: every interleaving (unbounded, sleep-set reduction); SQLite: preemption bound 2 / 3
+					bound, sleep, shards := -1, true, 1
+					if backend == "sqlite" {
+						bound, sleep, shards = pick(thorough, 2, 3), false, pick(thorough, 4, 8)
+						if len(sh.ids) == 3 {
+							shards = 8
+						}
 					}
 					out = append(out, s.scn(bound, sleep, shards))
 				}
@@ -527,10 +577,14 @@ type reloadScenario struct {
 	Old, New string // route blocks
 	Req      sreq   // the overlapping request (ids a,b); the after-request (x,y) and the warming request (w) have the same shape
 	Warm     bool
+	Items    int // items of the overlapping and of the after-request (2 or 1)
 }
 
 func (s reloadScenario) with(name string, ids ...string) sreq {
 	q := s.Req
+	if s.Items == 1 && len(ids) > 1 {
+		ids = ids[:1]
+	}
 	q.Name, q.IDs = name, ids
 	return q
 }
@@ -578,6 +632,9 @@ func (s reloadScenario) body(mode string) func(x *sched.Exec) {
 			})
 		}
 		x.Run()
+		if cut(x, a) {
+			return
+		}
 		if mode == "race" {
 			pub(s.with("after", "x", "y")) // everything else has finished: served by the configuration in force now
 		}
@@ -587,9 +644,9 @@ func (s reloadScenario) body(mode string) func(x *sched.Exec) {
 	}
 }
 
-func (s reloadScenario) scn(bound int) schedScn {
-	return schedScn{
-		Name: s.Name, Shards: 1, Bound: bound, Body: s.body("race"),
+func (s reloadScenario) scn() schedScn {
+	return schedScn{ // every interleaving (unbounded, sleep-set reduction)
+		Name: s.Name, Shards: 1, Bound: -1, Sleep: true, Body: s.body("race"),
 		Compact: func(log []string) string {
 			m := parseLog(log)
 			return "req=" + parseAnswer(m["req"]).noIndex() + " after=" + parseAnswer(m["after"]).noIndex()
@@ -608,18 +665,19 @@ func (s reloadScenario) scn(bound int) schedScn {
 			}
 			return fmt.Sprintf("publish-reload:%s:%s", kind, s.Toggle)
 		},
-		Prepare: func(t *testing.T) (func(x *sched.Exec), map[string]any, error) {
+		Prepare: func(t *testing.T) (func(x *sched.Exec), map[string]any, func() []string, error) {
+			notes := noteSet{}
 			old, err := refRun(t, s.body("old"))
 			if err != nil {
-				return nil, nil, fmt.Errorf("%s: reference under the old configuration: %w", s.Name, err)
+				return nil, nil, nil, fmt.Errorf("%s: reference under the old configuration: %w", s.Name, err)
 			}
 			neu, err := refRun(t, s.body("new"))
 			if err != nil {
-				return nil, nil, fmt.Errorf("%s: reference on a fresh boot of the new configuration: %w", s.Name, err)
+				return nil, nil, nil, fmt.Errorf("%s: reference on a fresh boot of the new configuration: %w", s.Name, err)
 			}
-			underOld, underNew, afterNew := parseAnswer(old["req"]), parseAnswer(neu["req"]), parseAnswer(neu["after"])
+			underOld, underNew := parseAnswer(old["req"]), parseAnswer(neu["req"])
 			if underOld.noIndex() == underNew.noIndex() {
-				return nil, nil, fmt.Errorf("%s: the toggle does not change the answer (%s): vacuous scenario", s.Name, old["req"])
+				return nil, nil, nil, fmt.Errorf("%s: the toggle does not change the answer (%s): vacuous scenario", s.Name, old["req"])
 			}
 			oracle := func(x *sched.Exec) {
 				m := parseLog(x.Log)
@@ -636,9 +694,14 @@ func (s reloadScenario) scn(bound int) schedScn {
 					sched.Failf("a publish made after the reload had completed was not judged by the new configuration:\n    observed %s (the overlapping publish: %s)\n    a fresh boot of the new configuration answers %s (old configuration: %s)",
 						m["after"], m["req"], neu["after"], old["req"])
 				}
-				if req.noIndex() != underOld.noIndex() && req.noIndex() != underNew.noIndex() {
+				// the statement fixes acceptance, not the code of a refusal: the overlapping request may be accepted only
+				// if the old or the new configuration accepts it, refused only if one of them refuses it
+				if req.class() != underOld.class() && req.class() != underNew.class() {
 					sched.Failf("the publish overlapping the reload was answered neither as under the old nor as under the new configuration:\n    observed  %s\n    under old %s\n    under new %s",
 						m["req"], old["req"], neu["req"])
+				}
+				if req.noIndex() != underOld.noIndex() && req.noIndex() != underNew.noIndex() {
+					notes.add("req=" + m["req"])
 				}
 				// all-or-nothing, whatever configuration judged the request
 				rows := parseRows(m["final"])
@@ -653,14 +716,13 @@ func (s reloadScenario) scn(bound int) schedScn {
 						sched.Failf("publish is not all-or-nothing: request %s was answered %s but %d of its %d items are in the queue: [%s]", name, m[name], n, len(ids), m["final"])
 					}
 				}
-				check("req", req, "a", "b")
-				check("after", after, "x", "y")
+				check("req", req, s.with("req", "a", "b").IDs...)
+				check("after", after, s.with("after", "x", "y").IDs...)
 				if s.Warm {
 					check("warm", parseAnswer(m["warm"]), "w")
 				}
-				_ = afterNew
 			}
-			return oracle, map[string]any{"under_old": old["req"], "under_new": neu["req"], "after": neu["after"]}, nil
+			return oracle, map[string]any{"under_old": old["req"], "under_new": neu["req"], "after": neu["after"]}, notes.list, nil
 		},
 	}
 }
@@ -671,8 +733,12 @@ func reloadScenarios(thorough bool) []schedScn {
 	}
 	managed := " application \"app1\"\n endpoint_name \"ep1\"\n"
 	filler := route("/z", "", "/ez")
-	p := func(attrs string) string { return route(sRouteP, attrs, "/ep") + route(sRouteM, managed, "/em") + filler }
-	m := func(attrs string) string { return route(sRouteP, "", "/ep") + route(sRouteM, managed+attrs, "/em") + filler }
+	p := func(attrs string) string {
+		return route(sRouteP, attrs, "/ep") + route(sRouteM, managed, "/em") + filler
+	}
+	m := func(attrs string) string {
+		return route(sRouteP, "", "/ep") + route(sRouteM, managed+attrs, "/em") + filler
+	}
 	global := sreq{}
 	scoped := sreq{Scoped: true}
 	type toggle struct {
@@ -691,17 +757,33 @@ func reloadScenarios(thorough bool) []schedScn {
 		{"endpoint-exists@scoped", m(""), route(sRouteP, "", "/ep") + filler, scoped},
 		{"route-managed@global", p(""), route(sRouteP, " application \"app1\"\n endpoint_name \"ep2\"\n", "/ep") + route(sRouteM, managed, "/em") + filler, global},
 		{"route-managed@scoped", p(""), route(sRouteP, " application \"app1\"\n endpoint_name \"ep2\"\n", "/ep") + route(sRouteM, managed, "/em") + filler, sreq{Scoped: true, Ep: "ep2"}},
+		// crossing pairs: both configurations refuse the request, for different reasons; a mixture of the two would accept it
+		// (a = switch off and max_body 8, b = switch on and max_body 4; payload 6 bytes)
+		{"cross:publish+max_body@global", p(" publish off\n max_body 8\n"), p(" max_body 4\n"), sreq{Payload: 6}},
+		{"cross:publish.direct+max_body@global", p(" publish.direct off\n max_body 8\n"), p(" max_body 4\n"), sreq{Payload: 6}},
+		{"cross:publish+max_body@scoped", m(" publish off\n max_body 8\n"), m(" max_body 4\n"), sreq{Scoped: true, Payload: 6}},
+		{"cross:publish.managed+max_body@scoped", m(" publish.managed off\n max_body 8\n"), m(" max_body 4\n"), sreq{Scoped: true, Payload: 6}},
 	}
 	var out []schedScn
 	for _, tg := range toggles {
 		for _, dir := range []string{"a->b", "b->a"} {
 			for _, warm := range []bool{false, true} {
-				s := reloadScenario{Toggle: tg.name + ":" + dir, Old: tg.a, New: tg.b, Req: tg.req, Warm: warm}
-				if dir == "b->a" {
-					s.Old, s.New = tg.b, tg.a
+				for _, items := range []int{2, 1} {
+					// the one-item request: crossing pairs only (a handler that judges item by item can mix per item)
+					if items == 1 && (!strings.HasPrefix(tg.name, "cross:") || warm) {
+						continue
+					}
+					s := reloadScenario{Toggle: tg.name + ":" + dir, Old: tg.a, New: tg.b, Req: tg.req, Warm: warm, Items: items}
+					if dir == "b->a" {
+						s.Old, s.New = tg.b, tg.a
+					}
+					s.Name = fmt.Sprintf("publish||reload:%s:%s:%s", tg.name, dir, map[bool]string{false: "cold", true: "warm"}[warm])
+					if items == 1 {
+						s.Name += ":1-item"
+						s.Toggle += ":1-item"
+					}
+					out = append(out, s.scn())
 				}
-				s.Name = fmt.Sprintf("publish||reload:%s:%s:%s", tg.name, dir, map[bool]string{false: "cold", true: "warm"}[warm])
-				out = append(out, s.scn(pick(thorough, 2, 4)))
 			}
 		}
 	}
@@ -743,7 +825,7 @@ func schedReplayObject(name string, f *sched.Failure) map[string]any {
 // runSchedJob: one scenario shard in this (child) process.
 func runSchedJob(r *runner.Run, t *testing.T, j schedJob) {
 	s := j.scn
-	oracle, info, err := s.Prepare(t)
+	oracle, info, notes, err := s.Prepare(t)
 	if err != nil {
 		r.Infra("%v", err)
 		return
@@ -774,6 +856,10 @@ func runSchedJob(r *runner.Run, t *testing.T, j schedJob) {
 		if j.shard == 0 {
 			sum[k] = v
 		}
+	}
+	if ns := notes(); len(ns) > 0 {
+		sum["answers_no_sequential_run_gives(recorded,not_asserted)"] = ns
+		r.Add("sched_answers_recorded_not_asserted", int64(len(ns)))
 	}
 	r.Set(key, sum)
 	if !res.Exhaustive {
@@ -816,7 +902,7 @@ func schedReplay(r *runner.Run, t *testing.T, path string) bool {
 			if s.Name != doc.Replay.Scenario {
 				continue
 			}
-			oracle, _, err := s.Prepare(t)
+			oracle, _, _, err := s.Prepare(t)
 			if err != nil {
 				r.Infra("replay %s: %v", s.Name, err)
 				return true
